@@ -13,7 +13,7 @@ from fractions import Fraction
 VERIF = os.path.dirname(os.path.dirname(os.path.abspath(__file__)))
 COQDIR = os.path.join(VERIF, "coq")
 WORK = os.path.join(VERIF, ".work")
-EVID = os.path.join(VERIF, "evidence")
+EVID = os.environ.get("VERIF_EVIDENCE_DIR") or os.path.join(VERIF, "evidence")   # redirected by tools/seedtest.sh so that runs on mutated copies never overwrite committed evidence
 REPLAYS = os.path.join(VERIF, "replays")
 REPO = os.environ.get("PYLOPS_REPO", "/repo")
 NPROC = int(os.environ.get("VERIF_NPROC", "16"))
